@@ -441,6 +441,193 @@ def emit_determinism(d):
     return "\n".join(L)
 
 
+# ---------------------------------------------------------------------------- binary operators of the evaluator
+VALUE_KIND = {"Null": "Null", "Bool": "Bool", "Int": "Int", "Str": "Str", "List": "List", "Object": "Object",
+              "BuiltinFunc": "BuiltinFunc", "Func": "Func"}
+
+
+def match_arms(text, table):
+    """the arms of a `match … { … }` body: [(pattern text, body text)] (brace- and string-aware)"""
+    arms, i, n = [], 0, len(text)
+    while i < n:
+        while i < n and text[i] in " \t\n,":
+            i += 1
+        if i >= n:
+            break
+        j = text.find("=>", i)
+        if j < 0:
+            raise ExtractError(table, f"match arm without `=>`: {text[i:i + 60]!r}")
+        pat = text[i:j].strip()
+        k = j + 2
+        while k < n and text[k] in " \t\n":
+            k += 1
+        if k < n and text[k] == "{":
+            e = balanced(text, k, "{", "}")
+            body = text[k + 1:e - 1]
+        else:
+            e = k
+            depth = 0
+            while e < n and not (text[e] == "," and depth == 0):
+                depth += text[e] in "([{"
+                depth -= text[e] in ")]}"
+                e += 1
+            body = text[k:e]
+        arms.append((" ".join(pat.split()), body))
+        i = e
+    return arms
+
+
+def binop_tables(repo: Path):
+    """`apply_binary_operation`: for every operator the operand-kind pairs it has an arm for, and the integer / boolean
+    primitive each arm uses.  Any arm shape that is not recognised (a guard, a wildcard on one side, a new delegate) is an
+    extraction error, so that it cannot silently fall outside the table."""
+    T = "binop_arms"
+    src = strip_comments((repo / "src/eval/mod.rs").read_text())
+    body = fn_body(src, "apply_binary_operation", T)
+    m = re.search(r"\bmatch op \{", body)
+    if not m:
+        raise ExtractError(T, "`match op {` not found")
+    end = balanced(body, m.end() - 1, "{", "}")
+    arms = {}
+    prims = {}
+    delegates = {}
+    for pat, arm in match_arms(body[m.end():end - 1], T):
+        ops = [p.strip() for p in pat.split("|")]
+        if not all(re.fullmatch(r"BinaryOp::\w+", o) for o in ops):
+            raise ExtractError(T, f"operator pattern not a list of BinaryOp variants: {pat!r}")
+        ops = [o.split("::")[1] for o in ops]
+        a = arm.strip()
+        if a.startswith("match eq(lhs, rhs)"):
+            for o in ops:
+                delegates[o] = "eq"
+            continue
+        if a.startswith("if let Some(v) = ref_eq(lhs, rhs)"):
+            if "Err(new_invalid_op_types())" not in a:
+                raise ExtractError(T, "ref_eq arm without the invalid-types fallback")
+            for o in ops:
+                delegates[o] = "ref_eq"
+            continue
+        mm = re.match(r"match \(lhs, rhs\) \{", a)
+        if not mm:
+            raise ExtractError(T, f"operator arm for {ops} is neither a delegate nor `match (lhs, rhs)`: {a[:80]!r}")
+        e2 = balanced(a, mm.end() - 1, "{", "}")
+        if a[e2:].strip():
+            raise ExtractError(T, f"text after the operand match of {ops}: {a[e2:e2 + 60]!r}")
+        pairs = []
+        saw_default = False
+        for ipat, ibody in match_arms(a[mm.end():e2 - 1], T):
+            if ipat == "_":
+                if " ".join(ibody.split()) != "Err(new_invalid_op_types())":
+                    raise ExtractError(T, f"default operand arm of {ops} is not the invalid-types error: {ibody[:80]!r}")
+                saw_default = True
+                continue
+            pm = re.fullmatch(r"\(Value::(\w+)\((\w+)\), Value::(\w+)\((\w+)\)\)", ipat)
+            if not pm or pm.group(1) not in VALUE_KIND or pm.group(3) not in VALUE_KIND:
+                raise ExtractError(T, f"operand pattern of {ops} not of the form (Value::K(a), Value::K(b)): {ipat!r}")
+            if saw_default:
+                raise ExtractError(T, f"operand arm after the default arm of {ops}")
+            kl, kr = VALUE_KIND[pm.group(1)], VALUE_KIND[pm.group(3)]
+            pairs.append((kl, kr))
+            # primitives: per operator when the arm dispatches on `op` again, else for every operator of the group
+            sub = re.search(r"match op \{", ibody)
+            per_op = {}
+            if sub:
+                se = balanced(ibody, sub.end() - 1, "{", "}")
+                for spat, sbody in match_arms(ibody[sub.end():se - 1], T):
+                    if spat == "_":
+                        if "panic!" not in sbody:
+                            raise ExtractError(T, f"default arm of the inner `match op` of {ops} is not a panic")
+                        continue
+                    so = [x.strip() for x in spat.split("|")]
+                    if not all(re.fullmatch(r"BinaryOp::\w+", x) for x in so):
+                        raise ExtractError(T, f"inner operator pattern: {spat!r}")
+                    for x in so:
+                        per_op[x.split("::")[1]] = sbody
+                if set(per_op) != set(ops):
+                    raise ExtractError(T, f"inner `match op` of {ops} covers {sorted(per_op)}")
+            else:
+                per_op = {o: ibody for o in ops}
+            for o, b in per_op.items():
+                found = []
+                found += [f"{x}(b)" for x in re.findall(r"\ba\.((?:checked|wrapping|saturating|overflowing)_\w+)\(\*b\)", b)]
+                found += [f"a {x} b" for x in re.findall(r"\ba (>=|<=|>|<) b\b", b)]
+                found += [f"a {x} b" for x in re.findall(r"\*a (&&|\|\|) \*b", b)]
+                if re.search(r"\*b == 0", b):
+                    found.append("b == 0 -> overflow")
+                if re.search(r"\.concat\(\)", b):
+                    found.append("concat")
+                # any other arithmetic / bit operator applied in the arm (a hand-written shortcut next to the primitive)
+                plain = re.sub(r"\*(a|b|lhs|rhs)\b", r"\1", b)
+                for x in re.findall(r"[\w)\]]\s*(<<|>>|&&|\|\||[-+*/%&|^])\s*[\w(\[]", plain):
+                    if x in ("&&", "||") and f"a {x} b" in found:
+                        continue
+                    found.append(f"raw {x}")
+                if not found:
+                    raise ExtractError(T, f"no recognised primitive in the ({kl}, {kr}) arm of {o}")
+                prims[(o, kl, kr)] = found
+        if not saw_default:
+            raise ExtractError(T, f"operand match of {ops} has no default arm")
+        for o in ops:
+            arms[o] = pairs
+    return dict(arms=arms, prims={f"{o}:{kl}:{kr}": v for (o, kl, kr), v in prims.items()}, delegates=delegates)
+
+
+def eq_tables(repo: Path):
+    """the operand-kind arms of `eq` (every other pair is the type error) and of `ref_eq` (every other pair is None)"""
+    T = "eq_arms"
+    src = strip_comments((repo / "src/eval/mod.rs").read_text())
+    out = {}
+    for fn, default_re in (("eq", r"Err\(\( String::new\(\), error::render_type\(lhs\), error::render_type\(rhs\), \)\)"),
+                           ("ref_eq", r"None")):
+        body = fn_body(src, fn, T)
+        m = re.search(r"\bmatch \(lhs, rhs\) \{", body)
+        if not m:
+            raise ExtractError(T, f"`match (lhs, rhs)` not found in `{fn}`")
+        end = balanced(body, m.end() - 1, "{", "}")
+        if body[end:].strip():
+            raise ExtractError(T, f"text after the operand match of `{fn}`")
+        pairs, saw_default = [], False
+        for pat, arm in match_arms(body[m.end():end - 1], T):
+            if pat == "_":
+                if not re.fullmatch(default_re, " ".join(arm.split())):
+                    raise ExtractError(T, f"default arm of `{fn}` is not the expected rejection: {arm[:80]!r}")
+                saw_default = True
+                continue
+            pm = re.fullmatch(r"\(Value::(\w+)(?:\((\w+)\))?, Value::(\w+)(?:\((\w+)\))?\)", pat)
+            if not pm or pm.group(1) not in VALUE_KIND or pm.group(3) not in VALUE_KIND or saw_default:
+                raise ExtractError(T, f"operand pattern of `{fn}` not of the form (Value::K(a), Value::K(b)): {pat!r}")
+            pairs.append((VALUE_KIND[pm.group(1)], VALUE_KIND[pm.group(3)]))
+        if not saw_default:
+            raise ExtractError(T, f"`{fn}` has no default arm")
+        out[fn] = pairs
+    return out
+
+
+def emit_eq(e):
+    L = []
+    for fn, name, doc in (("eq", "eqArms", "`eq`: operand-kind pairs with an arm (every other pair is the type error naming both kinds)"),
+                          ("ref_eq", "refEqArms", "`ref_eq`: operand-kind pairs with an arm (every other pair is rejected)")):
+        L.append(f"/-- {doc} -/")
+        L.append(f"def {name} : List (Kind × Kind) := [" + ", ".join(f"(Kind.{a}, Kind.{b})" for a, b in e[fn]) + "]\n")
+    return "\n".join(L)
+
+
+def emit_binops(b):
+    L = ["/-- `apply_binary_operation`: operand-kind pairs each operator has an arm for (every other pair is InvalidOpTypes) -/",
+         "def binopArms : List (BinaryOp × List (Kind × Kind)) := ["]
+    L.append(",\n".join("  (BinaryOp.%s, [%s])" % (o, ", ".join(f"(Kind.{a}, Kind.{c})" for a, c in ps)) for o, ps in b["arms"].items()))
+    L.append("]\n")
+    L.append("/-- operators that hand both operands to another function (`eq`, `ref_eq`) -/")
+    L.append("def binopDelegates : List (BinaryOp × List Char) := [")
+    L.append(",\n".join(f"  (BinaryOp.{o}, {lean_chars(d)})" for o, d in b["delegates"].items()))
+    L.append("]\n")
+    L.append("/-- the host primitive(s) each arm computes with: `op:kind:kind` ↦ primitives in source order -/")
+    L.append("def binopPrims : List (List Char × List (List Char)) := [")
+    L.append(",\n".join("  (%s, [%s])" % (lean_chars(k), ", ".join(lean_chars(x) for x in v)) for k, v in b["prims"].items()))
+    L.append("]\n")
+    return "\n".join(L)
+
+
 def extend(repo: Path, tables):
     det = determinism_tables(repo)
     tables["determinism"] = det
@@ -457,3 +644,9 @@ def extend(repo: Path, tables):
     tables["grammar"] = gr
     tables.setdefault("extra_imports", []).append("import SeedModel.Ast")
     tables.setdefault("extra_lean", []).append(emit_grammar(gr))
+    bo = binop_tables(repo)
+    tables["binops_eval"] = bo
+    tables.setdefault("extra_lean", []).append(emit_binops(bo))
+    eqt = eq_tables(repo)
+    tables["eq_arms"] = eqt
+    tables.setdefault("extra_lean", []).append(emit_eq(eqt))
